@@ -162,7 +162,7 @@ func (s *session) runV2(name string, op J) J {
 		_, err := cl.PutItem(ctx, &dynamodb.PutItemInput{TableName: table, Item: itemToV2(obj(op, "item")), ConditionExpression: pstr(op, "cond"), ExpressionAttributeNames: names(op), ExpressionAttributeValues: itemToV2(obj(op, "values"))})
 		return res(err)
 	case "get":
-		o, err := cl.GetItem(ctx, &dynamodb.GetItemInput{TableName: table, Key: itemToV2(obj(op, "key"))})
+		o, err := cl.GetItem(ctx, &dynamodb.GetItemInput{TableName: table, Key: itemToV2(obj(op, "key")), ExpressionAttributeNames: names(op), ProjectionExpression: pstr(op, "projection")})
 		r := res(err)
 		if o != nil {
 			r["item"] = itemFromV2(o.Item)
@@ -273,6 +273,10 @@ func (s *session) runV2(name string, op J) J {
 			ka := types.KeysAndAttributes{}
 			for _, k := range keys.([]interface{}) {
 				ka.Keys = append(ka.Keys, itemToV2(k.(map[string]interface{})))
+			}
+			if opts, ok := obj(op, "opts")[t].(map[string]interface{}); ok {
+				ka.ExpressionAttributeNames = names(J(opts))
+				ka.ProjectionExpression = pstr(J(opts), "projection")
 			}
 			in.RequestItems[l2b(t)] = ka
 		}
